@@ -92,6 +92,29 @@ func canonWrite(sb *strings.Builder, v reflect.Value, o *canonOpts) {
 			canonWrite(sb, v.FieldByName("Value"), o)
 			sb.WriteString("}")
 			return
+		case "IfStmt":
+			// `if !c {A} else {B}` is printed as `if c {B} else {A}`
+			cond, els := canonDeref(v.FieldByName("Cond")), canonDeref(v.FieldByName("Else"))
+			for cond.IsValid() && cond.Kind() == reflect.Struct && cond.Type().Name() == "ParenExpr" {
+				cond = canonDeref(cond.FieldByName("X"))
+			}
+			if cond.IsValid() && cond.Kind() == reflect.Struct && cond.Type().Name() == "UnaryExpr" && fmt.Sprint(cond.FieldByName("Op").Interface()) == "!" &&
+				els.IsValid() && els.Kind() == reflect.Struct && els.Type().Name() == "BlockStmt" {
+				sb.WriteString("IfStmt{")
+				if init := v.FieldByName("Init"); init.IsValid() && !init.IsNil() {
+					sb.WriteString("Init:")
+					canonWrite(sb, init, o)
+					sb.WriteString(" ")
+				}
+				sb.WriteString("Cond:")
+				canonWrite(sb, cond.FieldByName("X"), o)
+				sb.WriteString(" Body:")
+				canonWrite(sb, v.FieldByName("Else"), o)
+				sb.WriteString(" Else:")
+				canonWrite(sb, v.FieldByName("Body"), o)
+				sb.WriteString("}")
+				return
+			}
 		case "ParenExpr":
 			canonWrite(sb, v.FieldByName("X"), o)
 			return
@@ -167,6 +190,16 @@ func canonWrite(sb *strings.Builder, v reflect.Value, o *canonOpts) {
 	}
 }
 
+func canonDeref(v reflect.Value) reflect.Value {
+	for v.IsValid() && (v.Kind() == reflect.Ptr || v.Kind() == reflect.Interface) {
+		if v.IsNil() {
+			return reflect.Value{}
+		}
+		v = v.Elem()
+	}
+	return v
+}
+
 // canonLocals returns a renaming of the names a function declares itself (parameters, results, `:=` and var
 // declarations, range variables) to positional names, in order of declaration. Printing both sides of a comparison
 // under their own renaming makes the comparison insensitive to what locals are called.
@@ -238,6 +271,20 @@ func canonLocals(pre map[string]string, nodes ...any) map[string]string {
 				}
 			case "StructType", "InterfaceType":
 				return // field and method names are not locals
+			case "IfStmt":
+				// same arm order as the printer's canonical form
+				cond, els := canonDeref(v.FieldByName("Cond")), canonDeref(v.FieldByName("Else"))
+				for cond.IsValid() && cond.Kind() == reflect.Struct && cond.Type().Name() == "ParenExpr" {
+					cond = canonDeref(cond.FieldByName("X"))
+				}
+				if cond.IsValid() && cond.Kind() == reflect.Struct && cond.Type().Name() == "UnaryExpr" && fmt.Sprint(cond.FieldByName("Op").Interface()) == "!" &&
+					els.IsValid() && els.Kind() == reflect.Struct && els.Type().Name() == "BlockStmt" {
+					walk(v.FieldByName("Init"))
+					walk(v.FieldByName("Cond"))
+					walk(v.FieldByName("Else"))
+					walk(v.FieldByName("Body"))
+					return
+				}
 			}
 			for i := 0; i < t.NumField(); i++ {
 				f := t.Field(i)
